@@ -78,7 +78,10 @@ XSock *x_connect(const std::string &addr, struct xcm_attr_map *attrs, bool nonbl
     x->nonblocking = attr_wants_nonblocking(attrs, nonblocking);
     struct xcm_attr_map *m = attrs ? xcm_attr_map_clone(attrs) : xcm_attr_map_create();
     if (!xcm_attr_map_exists(m, "xcm.blocking")) xcm_attr_map_add_bool(m, "xcm.blocking", !nonblocking);
-    {
+    if (!attrs && G->plan.P("plain_api")) {
+        ApiScope a("xcm_connect", x, x->nonblocking);
+        x->s = xcm_connect(addr.c_str(), nonblocking ? XCM_NONBLOCK : 0);
+    } else {
         ApiScope a("xcm_connect_a", x, x->nonblocking);
         x->s = xcm_connect_a(addr.c_str(), m);
     }
@@ -100,7 +103,10 @@ XSock *x_server(const std::string &addr, struct xcm_attr_map *attrs, bool nonblo
     {
         // xcm_server(_a) is outside C05 (documented synchronous resolution): never flagged
         ApiScope a("xcm_server_a", x, false);
-        x->s = xcm_server_a(addr.c_str(), m);
+        if (!attrs && G->plan.P("plain_api")) {
+            x->s = xcm_server(addr.c_str());
+            if (x->s && nonblocking && xcm_set_blocking(x->s, false) < 0) G->violation("C10.errno", "xcm_set_blocking(false) on a fresh server socket failed: %s", strerror(errno));
+        } else x->s = xcm_server_a(addr.c_str(), m);
     }
     int e = errno;
     xcm_attr_map_destroy(m);
@@ -117,7 +123,7 @@ XSock *x_accept(XSock *srv, struct xcm_attr_map *attrs, const std::string &label
     x->nonblocking = attr_wants_nonblocking(attrs, srv->nonblocking);
     {
         ApiScope a("xcm_accept_a", x, srv->nonblocking);
-        x->s = xcm_accept_a(srv->s, attrs);
+        x->s = (!attrs && G->plan.P("plain_api")) ? xcm_accept(srv->s) : xcm_accept_a(srv->s, attrs);
     }
     int e = errno;
     cur()->ops_since_poll++;
